@@ -118,6 +118,10 @@ MUTANTS = {
     'background_region_for_user': (V, "                if not self.registers.sctlr.br or not ispriv:", "                if not self.registers.sctlr.br:", ['C14']),
     'stm_wback_before_stores': (OPS + 'stmdb.py', "                address = sub(processor.registers.get(self.n), 4 * bit_count(self.registers, 1, 16), 32)\n                for i in range(15):",
                                 "                address = sub(processor.registers.get(self.n), 4 * bit_count(self.registers, 1, 16), 32)\n                if self.wback:\n                    processor.registers.set(self.n, address)\n                for i in range(15):", ['C14']),
+    'hub_end_inclusive': ('armulator/armv6/memory_controller_hub.py', "            if memory.beginning <= address < memory.end:", "            if memory.beginning <= address <= memory.end:", ['C16']),
+    'hub_last_match_wins': ('armulator/armv6/memory_controller_hub.py', "        for memory in self.memories:\n            if memory.beginning <= address < memory.end:\n                return memory", "        found = None\n        for memory in self.memories:\n            if memory.beginning <= address < memory.end:\n                found = memory\n        return found", ['C16']),
+    'ram_write_unclamped': ('armulator/armv6/memory_types.py', "        size = max(0, min(size, self.size - address))\n", "", ['C16']),
+    'hub_unmapped_read_ff': ('armulator/armv6/memory_controller_hub.py', "            return to_int(data, size)\n        return 0", "            return to_int(data, size)\n        return (1 << (8 * size)) - 1", ['C16']),
     'keyerror_for_ap_100': (V, "        elif perms.ap == 0b100:\n            print('unpredictable')", "        elif perms.ap == 0b100:\n            abort = {}[perms.ap]", ['C18']),
     'stale_opcode_len_reuse': (V, "        elif self.registers.current_instr_set() == InstrSet.THUMB:\n            self.opcode_len = 2\n            self.opcode = self.mem_a_get(self.registers.pc_store_value(), self.opcode_len)",
                                "        elif self.registers.current_instr_set() == InstrSet.THUMB:\n            self.opcode_len = 2 if self.opcode_len != 1 else 4\n            self.opcode = self.mem_a_get(self.registers.pc_store_value(), 2)", []),
